@@ -118,6 +118,14 @@ Definition match_stride_dim (q : quirks) (pd : option nat) (d : nat) : bool :=
   | Some x => Nat.eqb x d || (q_stride0 q && Nat.eqb x 0)
   end.
 
+(* PatternMatch.match_idx (expression reads only): a pattern that spells out an index only matches reads
+   of the same rank; `x`, `x[_]`, `x[_, _]` match a read of any rank.  [rank_ok] is the rank test, the
+   element-wise comparison stays the zip over the common prefix. *)
+Definition all_eholes (l : list pexpr) : bool :=
+  forallb (fun p => match p with PE_Hole => true | _ => false end) l.
+Definition rank_ok {A : Type} (pidx : list pexpr) (idx : list A) : bool :=
+  Nat.eqb (List.length pidx) (List.length idx) || all_eholes pidx.
+
 Definition is_hole_list1 (l : list pexpr) : bool :=
   match l with [PE_Hole] => true | _ => false end.
 
@@ -128,7 +136,8 @@ Fixpoint match_e (q : quirks) (e : expr) (pat : pexpr) {struct e} : bool :=
     match e with
     | Read x idx =>
         match pat with
-        | PRead px pidx => match_name px x && zip_all (fun p e' => match_e q e' p) pidx idx
+        | PRead px pidx =>
+            match_name px x && rank_ok pidx idx && zip_all (fun p e' => match_e q e' p) pidx idx
         | _ => false end
     | WindowExpr x _ =>
         match pat with
